@@ -509,3 +509,26 @@ PROPS["C13"] = {
                      {"mode": "rc", "cases": 12000, "max_size": 100}],
     },
 }
+
+PROPS["C14"] = {
+    "manifest": {
+        "level_text": ("Dynamic race detection: the library and the harness are built with ThreadSanitizer; generated workloads run the "
+                       "concurrent uses the API allows on real threads — 1-3 pooled writers sharing one pool from separate caller threads "
+                       "(1-600 block jobs each), a pooled sorter with 1-12 chunks, 2-8 threads running their own next/seek histories and "
+                       "lookups on one shared reader, and all of these at once. Any ThreadSanitizer report (halt_on_error, exit 66) or "
+                       "wrong result is a violation. This is the weakest claim of the suite: a race is seen only if both accesses are "
+                       "executed in the run (TSan's happens-before analysis does not need them to collide in time)."),
+        "level_note": TRUST + " ThreadSanitizer's happens-before model; rapidcheck itself is not instrumented (single-threaded use). Race reports are not shrunk; the replay is the workload.",
+        "technique": "generated concurrent workloads under ThreadSanitizer (dynamic happens-before race detection) with result oracles",
+    },
+    "src": "props/C14.cpp", "variant": "tsan", "report_unreproduced": True,
+    "level": "exploration",
+    "rule": ("case = workload parameters (kind, pool size, writers, blocks, chunks, reader threads, compression, seed). Every case is "
+             "non-trivial (>= 2 threads touch shared library state). Distinct by FNV-1a of the parameters."),
+    "expect_tags": ["kind_0", "kind_1", "kind_2", "kind_3", "writers_sharing_one_pool", "more_jobs_than_pool_threads", "threads_on_shared_reader"],
+    "assumptions": ["a data race is observable only when both conflicting accesses are executed in the run"],
+    "tiers": {
+        "quick": [{"mode": "rc", "cases": 150, "max_size": 100, "workers": 8, "kv": {"shrink-budget": 0, "timeout": 120}}],
+        "thorough": [{"mode": "rc", "cases": 1500, "max_size": 100, "workers": 8, "kv": {"shrink-budget": 0, "timeout": 120}}],
+    },
+}
